@@ -26,7 +26,8 @@ FINISH = dict(
          "{all fine, one listed file missing, one listed file not PEM}; per scenario one daemon run against "
          "the TLS mock CA: requests seen (all, signed), attempt outcome judged by Spec.C18.holds against "
          "the scenario's ground truth; the dumped root list of the endpoint compared with the model's "
-         "rootListOpt. non-trivial = ground truth differs from 'trusted with no roots'.",
+         "rootListOpt; plus two endpoints in one daemon (one lists the private root, the other nothing, both "
+         "servers use that CA) watched over several retries: the second must never receive a request. non-trivial = ground truth differs from 'trusted with no roots'.",
 )
 
 KINDS = ["trusted", "untrusted", "wrong-host", "expired"]
@@ -118,6 +119,44 @@ def scenario(idx, root, mat, kind, combo, fstate, helper):
             "observed_roots": observed_roots, "stderr_tail": dmn.stderr()[-400:]}
 
 
+def two_endpoints(idx, root, mat, helper, first):
+    """Two endpoints in ONE daemon: A lists the private root, B lists nothing; both servers present a
+    chain of that private CA.  Whatever A's trust made possible must not leak to B (exactly the roots
+    of the endpoint itself): B must never receive a request, however long the daemon runs."""
+    import time
+    m = mat["trusted"]
+    d = os.path.join(root, "two%d" % idx)
+    ca_a = mockca.MockCA(helper, tls={"cert": m["cert"], "key": m["key"], "host": "localhost"})
+    ca_b = mockca.MockCA(helper, tls={"cert": m["cert"], "key": m["key"], "host": "localhost"})
+    ca_a.start()
+    ca_b.start()
+    certs = [{"name": "crtA", "endpoint": "epA", "identifiers": [{"dns": "a.example.org", "challenge": "http-01"}]},
+             {"name": "crtB", "endpoint": "epB", "identifiers": [{"dns": "b.example.org", "challenge": "http-01"}]}]
+    eps = [{"name": "epA", "url": ca_a.base + "/directory", "tos_agreed": True, "root_certificates": [m["needed_root"]]},
+           {"name": "epB", "url": ca_b.base + "/directory", "tos_agreed": True}]
+    if first == "B":
+        eps.reverse()
+        certs.reverse()
+    cfg, log = flow.make_config(d, ca_a.base + "/directory", certs, endpoints=eps)
+    cfg_path = cfggen.write(os.path.join(d, "acmed.toml"), cfg)
+    dmn = flow.Daemon(cfg_path)
+    # A succeeds at once; B fails, pauses 2 s (hooked build) and retries: watch several retries
+    flow.wait_for(lambda: len(flow.post_ops(log)) >= 4 or not dmn.alive(), 14)
+    rc = dmn.stop()
+    ca_a.stop()
+    ca_b.stop()
+    reqs_b = [e for e in ca_b.log if e["kind"] == "req"]
+    posts = [flow.hook_args(p) for p in flow.post_ops(log)]
+    b_ok = any(p.get("is_success") == "true" and "crtB" in (p.get("certificate_path") or "") for p in posts)
+    a_ok = any(p.get("is_success") == "true" and "crtA" in (p.get("certificate_path") or "") for p in posts)
+    return {"idx": "two%d" % idx, "kind": "two-endpoints(first=%s)" % first, "combo": ["epA:needed", "epB:none"],
+            "fstate": "ok", "chain_valid": False, "root_files_ok": True, "requests_seen": len(reqs_b),
+            "signed_requests_seen": sum(1 for r in reqs_b if r["method"] == "POST"), "attempt_ok": b_ok,
+            "completed": bool(posts), "rc": rc, "cli": [], "endpoint": None, "global": None, "observed_roots": None,
+            "a_ok": a_ok, "b_attempts": sum(1 for p in posts if "crtB" in (p.get("certificate_path") or "")),
+            "stderr_tail": dmn.stderr()[-300:]}
+
+
 def run(ctx):
     gen.gen_all()
     if ctx.replay:
@@ -143,6 +182,12 @@ def run(ctx):
         with concurrent.futures.ThreadPoolExecutor(max_workers=12) as ex:
             results = list(ex.map(lambda a: scenario(a[0], root, mat, a[1][0], a[1][1], a[1][2], helper),
                                   enumerate(grid)))
+        two = [two_endpoints(i, root, mat, helper, first) for i, first in enumerate(["A", "B"])]
+        for t in two:
+            if not t["a_ok"] or t["b_attempts"] < 2:
+                ctx.broke("harness", "two-endpoint scenario did not exercise both endpoints (A ok=%s, B attempts=%d)"
+                          % (t["a_ok"], t["b_attempts"]), t)
+        results += two
         verdicts = vlib.model([{"op": "c18_judge", **{k: r[k] for k in (
             "chain_valid", "root_files_ok", "requests_seen", "signed_requests_seen", "attempt_ok", "cli",
             "endpoint", "global")}, "observed_roots": r["observed_roots"] or []} for r in results])
